@@ -431,7 +431,16 @@ def c_op(rec):
         m = clist(["(%s, %s)" % (cstr(a), cstr(b)) for a, b in op.reverse_mapping.items()])
         return "(Rename %s %s)" % (src, m)
     if k == "NaturalJoinNode":
-        return "(NaturalJoin %s %s %s %s %s %d)" % (src, c_op(ch[1]), cstrs(op.on_a), cstrs(op.on_b), cstr(op.jointype), nr)
+        # data-dependent branch of _natural_join_step: both sides have a row with a null key (the key columns of the two
+        # source results are not touched by the step, so this can be read off the objects afterwards)
+        nullkeys = False
+        try:
+            lf, rf = ch[0].get("res"), ch[1].get("res")
+            if lf is not None and rf is not None and len(op.on_a) > 0 and not (lf.shape[0] == 0 and rf.shape[0] == 0):
+                nullkeys = bool(lf[list(op.on_a)].isnull().any(axis=1).any() and rf[list(op.on_b)].isnull().any(axis=1).any())
+        except Exception:
+            nullkeys = False
+        return "(NaturalJoin %s %s %s %s %s %s %d)" % (src, c_op(ch[1]), cstrs(op.on_a), cstrs(op.on_b), cstr(op.jointype), cbool(nullkeys), nr)
     if k == "ConcatRowsNode":
         return "(ConcatRows %s %s %s)" % (src, c_op(ch[1]), "None" if op.id_column is None else "(Some %s)" % cstr(op.id_column))
     if k == "ConvertRecordsNode":
